@@ -1317,18 +1317,18 @@ package leveldb
 // refLoop) with a ghost flag.
 //@ ghost var gDeltaApplied bool
 //@ func (*session).refLoop$4
-//@   props C07
+//@   props C07 C03
 //@   safety off
 //@   at entry
 //@     ghost gDeltaApplied = false
 //@   loop 1
-//@     invariant [C07:conversion-steps-in-order] !gDeltaApplied
+//@     invariant [C03,C07:conversion-steps-in-order] !gDeltaApplied
 //@   loop 2
-//@     invariant [C07:conversion-steps-in-order] !gDeltaApplied
+//@     invariant [C03,C07:conversion-steps-in-order] !gDeltaApplied
 //@   loop 3
-//@     invariant [C07:conversion-steps-in-order] !gDeltaApplied
+//@     invariant [C03,C07:conversion-steps-in-order] !gDeltaApplied
 //@   at before call addFileRef#1
-//@     assert [C07:files-referenced-before-the-delta-is-applied] !gDeltaApplied
+//@     assert [C03,C07:files-referenced-before-the-delta-is-applied] !gDeltaApplied
 //@   at call applyDelta#1
 //@     ghost gDeltaApplied = true
 //@   at before stmt delete(ref, next)
